@@ -36,7 +36,7 @@ const watchdog = 10 * time.Second
 
 func TestC05_Post(t *testing.T) {
 	rec := evid.For("C05")
-	rec.SetRule("rapid-generated plans: 1..8 poster goroutines x 1..200 Posts each with generated yield points (Gosched / 20us sleep) and nesting (handler posts again on the loop thread, handler spawns a goroutine that posts, two levels), while the loop goroutine (locked to its OS thread) runs a generated script of PollOne / RunOneFor(1ms) / blocking RunOne and arms and cancels a timer and a socket read (loop-thread accounting overlapping Post accounting); oracle: every handler id runs exactly once, on the loop thread (gettid), per-poster sequence numbers strictly increasing, a loop blocked in RunOne is woken by a later Post, the case finishes within a 10 s watchdog (deadlock = violation), Pending()==0 and Posted()==0 at quiescence, and the -race build reports no data race; non-trivial = >=2 posters overlapping loop-thread arm/disarm activity, or a nested post; distinct = hash of the plan. The OS scheduler, not the harness, picks the interleavings: the data-race half is timing-independent (happens-before analysis), the rest is statistical.")
+	rec.SetRule("rapid-generated plans: 1..8 poster goroutines x 1..200 Posts each with generated yield points (Gosched / 20us sleep) and nesting (handler posts again on the loop thread, handler spawns a goroutine that posts, two levels), while the loop goroutine (locked to its OS thread) runs a generated script of PollOne / RunOneFor(1ms) / blocking RunOne and arms and cancels a timer and a socket read (loop-thread accounting overlapping Post accounting); oracle: every handler id runs exactly once, on the loop thread (gettid), per-poster sequence numbers strictly increasing, a loop blocked in RunOne is woken by a later Post, the case finishes within a 10 s watchdog (deadlock = violation), Pending()==0 and Posted()==0 at quiescence, and the -race build reports no data race; TestC05_AsyncHandshakeReturnsToLoop: the library's own caller of Post - websocket.AsyncHandshake against a minimal server (conforming or 403, 0..3 ms delay) while 0..3 unrelated goroutines post and the loop either blocks in RunOne or polls: callback once, on the loop thread, loop woken, State() right inside the callback, Posted()==0 and Pending()==0 afterwards; non-trivial = >=2 posters overlapping loop-thread arm/disarm activity, or a nested post, or (handshake test) a blocked loop or concurrent posters; distinct = hash of the plan. The OS scheduler, not the harness, picks the interleavings: the data-race half is timing-independent (happens-before analysis), the rest is statistical.")
 	vt.Check(t, 150, func(rt *rapid.T) {
 		np := rapid.IntRange(1, 8).Draw(rt, "posters")
 		plans := make([]posterPlan, np)
